@@ -238,10 +238,14 @@ impl Check for C02 {
             });
         }
         let _ = dst_cols;
+        super::mixed::explore_mixed(run, "C02", owns, if deep { 5 } else { 4 }, false);
     }
 
     fn replay(&self, case: &str) -> Result<Option<Violation>, String> {
         let scene = parse_scene(case)?;
-        Ok(run_scene("C02", &scene, owns, &classify).err())
+        if let Err(v) = run_scene("C02", &scene, owns, &classify) {
+            return Ok(Some(v));
+        }
+        Ok(super::mixed::eval_mixed(&scene, &owns, false).err())
     }
 }
